@@ -7,6 +7,7 @@ through d independent scalar dense solves); all results are embedded in the comm
 import numpy as np
 
 from pdv import configs, extract, poly, util
+from pdv.refmodel import floors as floors_mod
 
 ID = "C14"
 LEVEL = "exploration"
@@ -94,7 +95,7 @@ def _solve(case, fact, problem, *, ts, strategy=None):
     t0 = cfg["prob"]["t0"]
     grid = np.concatenate([[t0], t0 + np.cumsum(case["steps"])])
     if case["kind"] == "adaptive":
-        sol = jax.jit(ivpsolve.solve_adaptive_save_at(solver=cfg["solver"], error=cfg["error"]))(
+        sol = jax.jit(ivpsolve.solve_adaptive_save_at(solver=cfg["solver"], error=cfg["error"], while_loop=configs.bounded_while()))(
             cfg["prior"], jnp.asarray(grid), atol=case["tol"], rtol=case["tol"], dt0=0.1)
     else:
         import warnings
@@ -103,18 +104,28 @@ def _solve(case, fact, problem, *, ts, strategy=None):
             warnings.simplefilter("ignore")  # fixed-point on a fixed grid warns; the comparison is still meaningful
             sol = jax.jit(ivpsolve.solve_fixed_grid(solver=cfg["solver"]))(cfg["prior"], grid=jnp.asarray(grid))
     T = len(grid)
+    if case["kind"] == "adaptive" and not configs.adaptive_reached_end(sol, grid[-1]):
+        raise util.Inconclusive("adaptive run hit its logical step budget")
     marg = [extract.normal_dense(extract.tree_index(sol.u, i)) for i in range(T)]
     scale = np.asarray(sol.output_scale, float)
-    return marg, scale, np.asarray(sol.num_steps), cfg["d"]
+    return marg, scale, np.asarray(sol.num_steps), grid
 
 
-def _cmp(a, b, tol, *, means=True, covs=True):
+def _cmp(a, b, tol, *, means=True, covs=True, floors=None):
+    """Both sides are float64 results: denominators use stds floored at 1e-7 of the prior's process-noise scale."""
     worst = 0.0
-    for (ma, Pa), (mb, Pb) in zip(a, b):
+    for i, ((ma, Pa), (mb, Pb)) in enumerate(zip(a, b)):
+        sd = np.sqrt(np.maximum(np.diag(Pb), 0.0))
+        if floors is not None:
+            sd = np.maximum(sd, floors[i] * max(1.0, 0.0))
+        if not (np.all(np.isfinite(ma)) and np.all(np.isfinite(Pa))):
+            return float("inf")
         if means:
-            worst = max(worst, util.scaled_mean_err(ma, mb, np.maximum(np.diag(Pb), (1e-9 * np.sqrt(np.max(np.diag(Pb)) + 1e-300)) ** 2), floor=1e-300))
+            worst = max(worst, float(np.max(np.abs(ma - mb) / (np.abs(mb) + sd + 1e-300))))
         if covs:
-            worst = max(worst, util.scaled_cov_err(Pa, Pb, std_floor_rel=1e-9))
+            den = np.outer(sd, sd)
+            den = np.where(den > 0, den, 1.0)
+            worst = max(worst, float(np.max(np.abs(Pa - Pb) / den)))
     return worst
 
 
@@ -135,7 +146,9 @@ def run_case(case):
             viols.append(util.viol(name, f"{name}: deviation {val:.3g} (tolerance {limit:.2g})", tags=tags))
 
     if kind in ("ts0", "adaptive"):
-        dn, sd, nd, _ = _solve(case, "dense", problem, ts="ts0")
+        dn, sd, nd, grid = _solve(case, "dense", problem, ts="ts0")
+        sc = float(np.max(sd)) if cal != "solver" else 1.0
+        fl = floors_mod.floors_for_grid(nu, d, grid, scale=sc)
         if max(float(np.max(np.abs(m))) for m, _ in dn) > 1e4 or not all(np.all(np.isfinite(m)) for m, _ in dn):
             return {"violations": [], "obs": {"cases": 1, "exploded_skipped": 1}, "sigs": []}
         iso, si, ni, _ = _solve(case, "isotropic", problem, ts="ts0")
@@ -144,18 +157,18 @@ def run_case(case):
             if not np.array_equal(nd, ni):
                 viols.append(util.viol("adaptive_step_counts", f"dense took {nd.tolist()} steps, isotropic {ni.tolist()}", tags=tags))
                 return {"violations": viols, "obs": obs, "sigs": []}
-        note("dense_vs_isotropic", _cmp(iso, dn, tol))
+        note("dense_vs_isotropic", _cmp(iso, dn, tol, floors=fl))
         note("dense_vs_isotropic_scale", util.rel_err(si, sd, floor=1e-300), limit=max(tol, 1e-6))
         if kind == "ts0" and cal != "dynamic":
             bd, sb, _, _ = _solve(case, "blockdiag", problem, ts="ts0")
-            note("dense_vs_blockdiag_means", _cmp(bd, dn, tol, covs=False))
+            note("dense_vs_blockdiag_means", _cmp(bd, dn, tol, covs=False, floors=fl))
             if cal == "solver":
-                note("dense_vs_blockdiag_covs", _cmp(bd, dn, tol, means=False))
+                note("dense_vs_blockdiag_covs", _cmp(bd, dn, tol, means=False, floors=fl))
             else:
                 note("blockdiag_mle_scale_split", util.rel_err(np.sqrt(np.mean(sb**2, axis=-1)), sd, floor=1e-300), limit=max(tol, 1e-6))
     elif kind == "decoupled":
         obs["decoupled_cases"] = 1
-        bd, sb, _, _ = _solve(case, "blockdiag", problem, ts="ts1")
+        bd, sb, _, grid = _solve(case, "blockdiag", problem, ts="ts1")
         if max(float(np.max(np.abs(m))) for m, _ in bd) > 1e4:
             return {"violations": [], "obs": {"cases": 1, "exploded_skipped": 1}, "sigs": []}
         n = nu + 1
@@ -167,16 +180,17 @@ def run_case(case):
             sk, ssk, _, _ = _solve(case, "dense", pk, ts="ts1")
             idx = np.arange(n) * d + k
             sub = [(m[idx], P[np.ix_(idx, idx)]) for m, P in bd]
-            note("blockdiag_vs_scalar_dense", _cmp(sub, sk, tol))
+            sck = float(np.max(ssk)) if cal != "solver" else 1.0
+            note("blockdiag_vs_scalar_dense", _cmp(sub, sk, tol, floors=floors_mod.floors_for_grid(nu, 1, grid, scale=sck)))
             sbk = sb[..., k] if sb.ndim > 1 else sb
             note("blockdiag_vs_scalar_dense_scale", util.rel_err(sbk, ssk, floor=1e-300), limit=max(tol, 1e-6))
     else:
         obs["scalar_jacobian_cases"] = 1
-        dn, sd, _, _ = _solve(case, "dense", problem, ts="ts1")
+        dn, sd, _, grid = _solve(case, "dense", problem, ts="ts1")
         if max(float(np.max(np.abs(m))) for m, _ in dn) > 1e4:
             return {"violations": [], "obs": {"cases": 1, "exploded_skipped": 1}, "sigs": []}
         iso, si, _, _ = _solve(case, "isotropic", problem, ts="ts1")
-        note("ts1_dense_vs_isotropic", _cmp(iso, dn, tol))
+        note("ts1_dense_vs_isotropic", _cmp(iso, dn, tol, floors=floors_mod.floors_for_grid(nu, d, grid, scale=float(np.max(sd)) if cal != "solver" else 1.0)))
         note("ts1_dense_vs_isotropic_scale", util.rel_err(si, sd, floor=1e-300), limit=max(tol, 1e-6))
     sigs = [f"{kind}|{case['strategy']}|{cal}|{nu}|{d}"] if len(case["steps"]) >= 3 else []
     sample = {"config": tags, "field": field.describe(), "deviations": {k: v for k, v in obs.items() if k.startswith("max_dev")}}
